@@ -357,6 +357,16 @@ func (vfs *MemFS) Link(oldname, newname string) error {
 		return &os.LinkError{Op: op, Old: oldname, New: newname, Err: err}
 	}
 
+	if nParent.children[pi.Part()] != nil {
+		// newname has been created since it was searched.
+		err := vfs.err.FileExists
+		if vfs.OSType() == avfs.OsWindows {
+			err = avfs.ErrWinAlreadyExists
+		}
+
+		return &os.LinkError{Op: op, Old: oldname, New: newname, Err: err}
+	}
+
 	c.mu.Lock()
 	nParent.addChild(pi.Part(), c)
 
@@ -805,6 +815,18 @@ func (vfs *MemFS) Rename(oldpath, newpath string) error {
 		return nil
 	}
 
+	// the directories may have changed since the nodes were searched.
+	if oParent.children[oPI.Part()] != oChild {
+		return &os.LinkError{Op: op, Old: oldpath, New: newpath, Err: vfs.err.NoSuchFile}
+	}
+
+	nChild = nParent.children[nPI.Part()]
+	nErr = vfs.err.NoSuchFile
+
+	if nChild != nil {
+		nErr = vfs.err.FileExists
+	}
+
 	if nChild == oChild {
 		// oldpath and newpath are hard links to the same file: nothing to do.
 		return nil
@@ -940,6 +962,11 @@ func (vfs *MemFS) Symlink(oldname, newname string) error {
 
 	if !parent.checkPermission(avfs.OpenWrite, vfs.User()) {
 		return &os.LinkError{Op: op, Old: oldname, New: newname, Err: vfs.err.PermDenied}
+	}
+
+	if parent.children[pi.Part()] != nil {
+		// newname has been created since it was searched.
+		return &os.LinkError{Op: op, Old: oldname, New: newname, Err: vfs.err.FileExists}
 	}
 
 	link := vfs.Clean(oldname)
